@@ -7,8 +7,40 @@ import PonyVerif.Model.SqlRender
 import PonyVerif.Drive.C25
 import PonyVerif.Model.TupleCmp
 import PonyVerif.Model.QTemporal
+import PonyVerif.Model.QWindow
 namespace PonyVerif.Drive.C02
 open Lean PonyVerif.Drive PonyVerif.Model.Q
+
+
+def optNat : Json → Except String (Option Nat)
+  | .null => pure none
+  | .num n => if n.exponent == 0 && n.mantissa ≥ 0 then pure (some n.mantissa.toNat) else throw "natural number expected"
+  | _ => throw "natural number or null expected"
+
+def optInt : Json → Except String (Option Int)
+  | .null => pure none
+  | .num n => if n.exponent == 0 then pure (some n.mantissa) else throw "integer expected"
+  | _ => throw "integer or null expected"
+
+def jOptNat : Option Nat → Json
+  | none => .null
+  | some n => .num (JsonNumber.fromNat n)
+
+def jOptInt : Option Int → Json
+  | none => .null
+  | some n => .num (JsonNumber.fromInt n)
+
+def clauseToJson : Clause → Json
+  | .absent => Json.mkObj [("kind", .str "absent")]
+  | .limit l o => Json.mkObj [("kind", .str "limit"), ("lim", jOptInt l), ("off", jOptNat o)]
+  | .rownum l g => Json.mkObj [("kind", .str "rownum"), ("le", jOptNat l), ("gt", jOptNat g)]
+
+def clauseOfJson (j : Json) : Except String Clause := do
+  match (← argStr j "kind") with
+  | "absent" => pure .absent
+  | "limit" => pure (.limit (← optInt (j.getObjValD "lim")) (← optNat (j.getObjValD "off")))
+  | "rownum" => pure (.rownum (← optNat (j.getObjValD "le")) (← optNat (j.getObjValD "gt")))
+  | k => throw s!"clause kind {k}"
 
 def handle (j : Json) : Except String Json := do
   let op ← argStr j "op"
@@ -23,6 +55,24 @@ def handle (j : Json) : Except String Json := do
           | .ok s => Json.mkObj [("ok", .str (renderText d s))]
           | .error e => Json.mkObj [("unsupported", .str e)])
         pure (Json.mkObj [("ok", .arr outs.toArray)])
+  | "window" =>
+      -- LIMIT / OFFSET of composed windows: the model's clause for the dialect, the meaning of the REAL clause on that backend
+      -- (null = the backend rejects it) and the Python reading, on R = [1..n]  (C02_window_dialects)
+      let ds ← argStr j "dialect"
+      match WDialect.ofString? ds with
+      | none => throw s!"dialect {ds}"
+      | some d =>
+        let ws ← (← argArr j "levels").mapM (fun x => match x with
+          | .arr #[l, o] => do pure ((← optNat l), (← optNat o))
+          | _ => throw "level")
+        let n ← (match j.getObjValD "n" with | .num k => pure k.mantissa.toNat | _ => throw "n")
+        let R := (List.range n).map (· + 1)
+        let real ← clauseOfJson (j.getObjValD "clause")
+        let lo := combineAll ws
+        let jl : List Nat → Json := fun xs => .arr (xs.map (fun x => Json.num (JsonNumber.fromNat x))).toArray
+        pure (Json.mkObj [("combined", .arr #[jOptNat lo.1, jOptNat lo.2]), ("model_clause", clauseToJson (limitClause d lo)),
+          ("real_meaning", match clauseWindow d real R with | some xs => jl xs | none => .null),
+          ("expected", jl (windowAll ws R))])
   | "temporaltext" =>
       -- SQLite: model text of the inline literal (C06's temporalStr) and of the bound parameter, for a value given by its fields
       let kind ← argStr j "kind"
